@@ -843,6 +843,13 @@ func runCore(seed int64, nHist, nOps int, out *bufio.Writer, thorough bool) *cor
 		sk := []string{"lww", "lww", "lww", "hash", "hash", "fww"}[r.Intn(6)]
 		// ties arise when two replicas share a writer
 		shared := r.Intn(4) == 0
+		// one history in sixteen is WIDE: seven to nine replicas, each its own writer, so that merged logs have many
+		// concurrent heads (more heads than the pointer count of an append, heads that are not the newest entries)
+		wide := !shared && h%16 == 11
+		if wide {
+			nRep = 7 + int(hs%3)
+			stats.OpHist["wideHistory"]++
+		}
 		bounded := !shared && sk != "fww" && r.Intn(4) == 0
 		ops := nOps
 		if shared {
@@ -950,6 +957,17 @@ func runCore(seed int64, nHist, nOps int, out *bufio.Writer, thorough bool) *cor
 				c = r.Intn(45) // mostly appends
 			}
 			switch {
+			case wide && c >= 60 && c < 72:
+				// gather: the replica merges most of the others one after the other (many concurrent heads, chains of
+				// different lengths) and appends with a small pointer count
+				for j := 0; j < n; j++ {
+					if j != i && !w.reps[j].tampered && r.Intn(4) != 0 {
+						w.doJoin(i, j, -1)
+						w.observe(i)
+					}
+				}
+				w.doAppend(i, []int{0, 1, 1, 2, 3}[r.Intn(5)])
+				stats.OpHist["gatherAppend"]++
 			case c < 45:
 				w.doAppend(i, pcChoices[r.Intn(len(pcChoices))])
 				stats.OpHist["append"]++
